@@ -342,7 +342,7 @@ def main(ctx):
                 "lazily loaded and one unloaded member")
     ctx.assumptions = ["ld.lld 14 (every rotation) and GNU ld 2.40 (--start-group) calibrate the model", "names defined in archive members are never defined in plain objects"]
     tools.wild()
-    n = ctx.pick(26, 260)
+    n = ctx.pick(18, 50)
     jobs = list(range(n))
     if ctx.replay is not None:
         jobs = [int(str(ctx.replay["case"]).split(".")[0])]
